@@ -71,6 +71,39 @@ type c14Node struct {
 	id       osm.RelationID
 	missing  bool          // no history at all (datasource answers NotFound)
 	versions []osm.Members // member list of every version, oldest first
+	tags     []osm.Tags    // tags of the versions (may be shorter than versions); never part of the graph
+}
+
+func (nd *c14Node) tagsAt(v int) osm.Tags {
+	if v < len(nd.tags) {
+		return nd.tags[v]
+	}
+	return nil
+}
+
+// c14TagsFor picks relation tags: the type values the library knows (multipolygon, boundary),
+// other and empty types, no type at all, plus arbitrary other tags. Tags say what a relation
+// is, not what it refers to: nothing about them may influence the ordering.
+func c14TagsFor(k uint64) osm.Tags {
+	var t osm.Tags
+	switch k % 7 {
+	case 0:
+		t = append(t, osm.Tag{Key: "type", Value: "multipolygon"})
+	case 1:
+		t = append(t, osm.Tag{Key: "type", Value: "boundary"}, osm.Tag{Key: "boundary", Value: "administrative"}, osm.Tag{Key: "admin_level", Value: "6"})
+	case 2:
+		t = append(t, osm.Tag{Key: "type", Value: "route"}, osm.Tag{Key: "route", Value: "bus"})
+	case 3:
+		t = append(t, osm.Tag{Key: "type", Value: "site"})
+	case 4:
+		t = append(t, osm.Tag{Key: "type", Value: ""})
+	case 5:
+		t = append(t, osm.Tag{Key: "name", Value: "x"}, osm.Tag{Key: "type", Value: "multipolygon"}, osm.Tag{Key: "landuse", Value: "forest"})
+	}
+	if (k/7)%3 == 0 {
+		t = append(t, osm.Tag{Key: "note", Value: "k" + strconv.FormatUint(k%97, 10)})
+	}
+	return t
 }
 
 type c14Graph struct {
@@ -114,6 +147,16 @@ func (g *c14Graph) finish() {
 			if v > 0 {
 				sb.WriteByte('|')
 			}
+			if tg := nd.tagsAt(v); len(tg) > 0 {
+				switch tg.Find("type") {
+				case "multipolygon":
+					sb.WriteString("m:")
+				case "boundary":
+					sb.WriteString("b:")
+				default:
+					sb.WriteString("t:")
+				}
+			}
 			for k, m := range ms {
 				if k > 0 {
 					sb.WriteByte('.')
@@ -140,7 +183,7 @@ func (g *c14Graph) finish() {
 			if nodeSlots > 1 {
 				notLinear = true
 			}
-			rels[v] = &osm.Relation{ID: nd.id, Version: v + 1, Visible: true, Members: ms}
+			rels[v] = &osm.Relation{ID: nd.id, Version: v + 1, Visible: true, Members: ms, Tags: nd.tagsAt(v)}
 		}
 		g.hist[nd.id] = rels
 	}
@@ -278,7 +321,7 @@ func c14Magnitude(r *gen.R) int64 {
 
 // c14ExhGraph decodes enumerated graph number gi on n relations (ids 1..n). layout 0: one
 // version, members ascending; 1: one version, members descending and carrying annotation fields (version, changeset,
-// orientation, location, role); 2: one member per version
+// orientation, location, role), relation tagged; 2 (versions tagged differently): one member per version
 // (ascending), preceded by a version holding way and node members that carry the number of
 // every relation of the graph (they are never edges); 3: as 0 with the ids c14WideIDs instead
 // of 1..n.
@@ -318,6 +361,7 @@ func c14ExhGraph(n int, gi int64, layout int) *c14Graph {
 				ms[k] = c14Decorate(ms[k], uint64(i*5+k))
 			}
 			nd.versions = []osm.Members{ms}
+			nd.tags = []osm.Tags{c14TagsFor(uint64(i) + uint64(mask)*3)}
 		default:
 			var noise osm.Members
 			for j := 1; j <= n; j++ {
@@ -326,6 +370,9 @@ func c14ExhGraph(n int, gi int64, layout int) *c14Graph {
 			nd.versions = []osm.Members{noise}
 			for _, m := range ms {
 				nd.versions = append(nd.versions, osm.Members{m})
+			}
+			for v := range nd.versions {
+				nd.tags = append(nd.tags, c14TagsFor(uint64(i+2*v)))
 			}
 		}
 		g.nodes = append(g.nodes, nd)
@@ -398,7 +445,11 @@ func c14DeepGraph(v int) *c14Graph {
 			}
 			ms = append(ms, m)
 		}
-		g.nodes = append(g.nodes, c14Node{id: idOf(i), versions: []osm.Members{ms}})
+		nd := c14Node{id: idOf(i), versions: []osm.Members{ms}}
+		if deco {
+			nd.tags = []osm.Tags{c14TagsFor(uint64(i))}
+		}
+		g.nodes = append(g.nodes, nd)
 	}
 	g.label = fmt.Sprintf("deep{depth=%d back=%d ring=%v wide=%v decorated=%v}", d, back, ring, wide, deco)
 	g.finish()
@@ -411,7 +462,10 @@ var c14Shapes = []string{"dag", "dag", "dag-dense", "chain", "tree", "dag+missin
 // c14RandGraph generates a graph of 1..maxN relations with histories plus up to three ids
 // without history, several versions with different members, node/way members whose refs
 // collide with relation ids, and references to relations without history.
-func c14RandGraph(r *gen.R, maxN int) *c14Graph {
+func c14RandGraph(r *gen.R, maxN int) *c14Graph { return c14RandGraphStyle(r, maxN, -1) }
+
+// c14RandGraphStyle is c14RandGraph with the id style forced (>= 0).
+func c14RandGraphStyle(r *gen.R, maxN int, forceStyle int) *c14Graph {
 	shape := c14Shapes[r.Intn(len(c14Shapes))]
 	n := r.Range(1, maxN)
 	if shape == "complete" && n > 5 {
@@ -421,6 +475,9 @@ func c14RandGraph(r *gen.R, maxN int) *c14Graph {
 	ids := make([]osm.RelationID, 0, n+3)
 	used := map[osm.RelationID]bool{}
 	style := r.Pick(0, 1, 2, 3, 3)
+	if forceStyle >= 0 {
+		style = forceStyle
+	}
 	newID := func() osm.RelationID {
 		for {
 			var v int64
@@ -542,6 +599,7 @@ func c14RandGraph(r *gen.R, maxN int) *c14Graph {
 
 	g := &c14Graph{shape: shape}
 	decorated := r.Chance(0.4) // histories of previously annotated relations
+	tagged := r.Chance(0.6)    // versions carry tags (type=multipolygon / boundary / route / ...)
 	for a := 0; a < n; a++ {
 		nv := r.Pick(1, 1, 2, 2, 3, 4)
 		vs := make([]osm.Members, nv)
@@ -584,7 +642,13 @@ func c14RandGraph(r *gen.R, maxN int) *c14Graph {
 			ms := vs[v]
 			r.Shuffle(len(ms), func(i, j int) { ms[i], ms[j] = ms[j], ms[i] })
 		}
-		g.nodes = append(g.nodes, c14Node{id: ids[a], versions: vs})
+		nd := c14Node{id: ids[a], versions: vs}
+		if tagged {
+			for range vs {
+				nd.tags = append(nd.tags, c14TagsFor(r.Uint64()))
+			}
+		}
+		g.nodes = append(g.nodes, nd)
 	}
 	for _, id := range missing {
 		g.nodes = append(g.nodes, c14Node{id: id, missing: true})
@@ -616,7 +680,8 @@ func c14BuildLib(g *c14Graph, mode int) *c14Lib {
 	}
 	rel := func(x ver) *osm.Relation {
 		nd := g.nodes[x.node]
-		return &osm.Relation{ID: nd.id, Version: x.v + 1, Visible: true, Members: append(osm.Members(nil), nd.versions[x.v]...)}
+		return &osm.Relation{ID: nd.id, Version: x.v + 1, Visible: true, Members: append(osm.Members(nil), nd.versions[x.v]...),
+			Tags: append(osm.Tags(nil), nd.tagsAt(x.v)...)}
 	}
 	st := uint64(len(g.desc))*0x9E3779B97F4A7C15 + uint64(mode)
 	rnd := func(n int) int {
@@ -733,6 +798,10 @@ type c14DS struct {
 	release    chan struct{}
 	blockedNow atomic.Bool
 	byCtx      atomic.Bool // the blocked lookup ended because its context became done
+	// gate (concurrent orderings): every lookup announces itself and waits for a token; closing
+	// the gate lets the ordering run freely
+	gate    chan struct{}
+	arrived atomic.Int64
 	// probe: record how many ids the consumer had received when each lookup started
 	probe     bool
 	recv      atomic.Int64
@@ -785,6 +854,13 @@ func (d *c14DS) RelationHistory(ctx context.Context, id osm.RelationID) (osm.Rel
 	}
 	if d.cancelAt > 0 && n == d.cancelAt {
 		d.cancel()
+	}
+	if d.gate != nil {
+		d.arrived.Add(1)
+		select {
+		case <-d.gate:
+		case <-d.release:
+		}
 	}
 	if d.probe {
 		// every send before this lookup has been received; give the consumer a moment to count it
@@ -860,13 +936,14 @@ func c14PlanFor(x uint64) int {
 // scenario runner + oracle
 
 type c14X struct {
-	res     *fw.Result
-	sigs    map[string]bool
-	keys    map[string]bool
-	curLib  int  // datasource mode of the scenario being settled (violation class suffix)
-	abort   bool // budget exhausted, deadlock or leak seen: skip the rest of the case
-	trace   bool
-	sampled bool
+	res      *fw.Result
+	sigs     map[string]bool
+	keys     map[string]bool
+	curMulti bool // the scenario being settled ran next to other orderings (violation class suffix)
+	curLib   int  // datasource mode of the scenario being settled (violation class suffix)
+	abort    bool // budget exhausted, deadlock or leak seen: skip the rest of the case
+	trace    bool
+	sampled  bool
 
 	mu     sync.Mutex      // guards leaked (read by scenario goroutines)
 	leaked map[string]bool // ids of goroutines already reported as stuck
@@ -875,6 +952,9 @@ type c14X struct {
 func (x *c14X) violate(class string, g *c14Graph, format string, a ...any) {
 	if x.curLib > 0 {
 		class += "-libds" // observed on a datasource the library built itself from an OSM / Change value
+	}
+	if x.curMulti {
+		class += "-concurrent" // observed while several orderings were alive in the process
 	}
 	key := "C14/" + class + "/" + g.key()
 	if x.keys[key] || len(x.keys) >= 40 {
@@ -916,10 +996,11 @@ type c14Scn struct {
 	plan      int
 	ctxAware  bool
 
-	pre        int  // block stops: Next calls to make before waiting for the blocked lookup
-	probe      bool // record the consumer's progress at every lookup
-	lib        int  // 0: the harness' own datasource; 1..4: library-built (c14LibModes)
-	hardBudget bool // exhausting the datasource budget is a non-termination verdict (set by run)
+	note       string // concurrent orderings: the schedule and the other members
+	pre        int    // block stops: Next calls to make before waiting for the blocked lookup
+	probe      bool   // record the consumer's progress at every lookup
+	lib        int    // 0: the harness' own datasource; 1..4: library-built (c14LibModes)
+	hardBudget bool   // exhausting the datasource budget is a non-termination verdict (set by run)
 }
 
 func (s *c14Scn) String() string {
@@ -1267,6 +1348,182 @@ func (x *c14X) body(s *c14Scn, st *c14State, out *c14Out, parent context.Context
 	out.overBudget = ds.over.Load()
 }
 
+// ---------------------------------------------------------------------------------------
+// concurrent orderings: several orderings over unrelated graphs (with overlapping ids) alive in
+// one process, each with its own consumer goroutine, interleaved deterministically through
+// gated datasources; each judged against its own graph.
+
+type c14Member struct {
+	g       *c14Graph
+	req     []osm.RelationID
+	stallAt int // nest schedule: stall inside this lookup (1-based) while the later members run
+
+	ds      *c14DS
+	cancel  context.CancelFunc
+	out     c14Out
+	done    atomic.Bool
+	granted int64
+	opened  bool
+}
+
+func (m *c14Member) open() {
+	if !m.opened {
+		m.opened = true
+		close(m.ds.gate)
+	}
+}
+
+// c14Wait yields until cond holds; bounded, the bound is far beyond anything a live run needs.
+func c14Wait(cond func() bool) bool {
+	for i := 0; i < 40000; i++ {
+		if cond() {
+			return true
+		}
+		runtime.Gosched()
+		if i > 500 {
+			time.Sleep(20 * time.Microsecond)
+		}
+	}
+	return cond()
+}
+
+// multi runs the members under schedule "nest" (member i is created, advanced until it sits
+// inside lookup stallAt, then member i+1 is created ...; the last one runs to its end, then the
+// others are released innermost first), "robin" (all created, one lookup each in turn) or
+// "free" (all created back to back, no gating).
+func (x *c14X) multi(ms []*c14Member, schedule string) {
+	if x.abort {
+		return
+	}
+	var names []string
+	for _, m := range ms {
+		names = append(names, m.g.key())
+	}
+	note := fmt.Sprintf("schedule=%s members=%s", schedule, strings.Join(names, " & "))
+	if x.trace {
+		fmt.Fprintf(os.Stderr, "C14 concurrent %s\n", note)
+	}
+	start := func(m *c14Member) {
+		ctx, cancel := context.WithCancel(context.Background())
+		m.cancel = cancel
+		m.ds = &c14DS{hist: m.g.hist, budget: c14BudgetBig, cancel: cancel, gate: make(chan struct{}), release: make(chan struct{})}
+		if schedule == "free" {
+			m.open()
+		}
+		req := append([]osm.RelationID(nil), m.req...)
+		o := annotate.NewChildFirstOrdering(ctx, req, m.ds)
+		limit := 2*(m.g.nHist+len(req)) + 8
+		go func() {
+			for len(m.out.emitted) <= limit {
+				if !o.Next() {
+					m.out.ended = true
+					break
+				}
+				m.out.emitted = append(m.out.emitted, o.RelationID())
+			}
+			m.out.overBound = len(m.out.emitted) > limit
+			o.Close()
+			m.out.dsCalls = m.ds.calls.Load()
+			m.out.overBudget = m.ds.over.Load()
+			m.done.Store(true)
+		}()
+	}
+	ok := true
+	// step lets m do one more lookup; false when m is done (or nothing moves any more)
+	step := func(m *c14Member) bool {
+		if !c14Wait(func() bool { return m.done.Load() || m.ds.arrived.Load() > m.granted }) {
+			ok = false
+			return false
+		}
+		if m.ds.arrived.Load() <= m.granted {
+			return false // done
+		}
+		m.ds.gate <- struct{}{}
+		m.granted++
+		return true
+	}
+	switch schedule {
+	case "nest":
+		for i, m := range ms {
+			start(m)
+			if i == len(ms)-1 {
+				m.open()
+				break
+			}
+			for ok && m.granted < int64(m.stallAt-1) && step(m) {
+			}
+			// now wait until it sits inside lookup stallAt (or has ended before getting there)
+			if !c14Wait(func() bool { return m.done.Load() || m.ds.arrived.Load() > m.granted }) {
+				ok = false
+			}
+			if m.ds.arrived.Load() > m.granted {
+				x.res.Add("concurrent_orderings_stalled_inside_lookup", 1)
+			}
+		}
+		for i := len(ms) - 1; i >= 0 && ok; i-- {
+			ms[i].open()
+			if !c14Wait(ms[i].done.Load) {
+				ok = false
+			}
+		}
+	case "robin":
+		for _, m := range ms {
+			start(m)
+		}
+		for live := true; live && ok; {
+			live = false
+			for _, m := range ms {
+				if !m.done.Load() && step(m) {
+					live = true
+				}
+			}
+		}
+		for _, m := range ms {
+			if ok && !c14Wait(m.done.Load) {
+				ok = false
+			}
+		}
+	default:
+		for _, m := range ms {
+			start(m)
+		}
+		for _, m := range ms {
+			if ok && !c14Wait(m.done.Load) {
+				ok = false
+			}
+		}
+	}
+	if !ok {
+		// not decided here: stop sweeps own the "never ends" verdicts
+		x.abort = true
+		for _, m := range ms {
+			if m.ds != nil {
+				m.cancel()
+				close(m.ds.release)
+				m.open()
+			}
+		}
+		x.res.Inconc("concurrent orderings did not finish within the wait bound (%s)", note)
+		x.res.Eval("")
+		return
+	}
+	x.curMulti = true
+	for i, m := range ms {
+		m.cancel()
+		sc := &c14Scn{g: m.g, req: m.req, stop: "concurrent", j: m.stallAt, note: fmt.Sprintf("member=%d %s", i, note)}
+		x.res.Event(int64(len(m.out.emitted)) + m.out.dsCalls)
+		if m.out.overBound {
+			x.violate("emit-bound", m.g, "more ids emitted than twice the relations with history plus requests: %s emitted=%s", sc, c14IDs(m.out.emitted))
+		}
+		if m.out.overBudget {
+			x.res.Inconc("datasource budget exhausted in a concurrent ordering (%s)", note)
+			continue
+		}
+		x.judge(sc, &m.out, m.out.ended)
+	}
+	x.curMulti = false
+}
+
 // settle turns what a finished scenario observed into counters, verdicts and evaluations.
 func (x *c14X) settle(s *c14Scn, out *c14Out) {
 	g := s.g
@@ -1328,7 +1585,7 @@ func (x *c14X) settle(s *c14Scn, out *c14Out) {
 func (x *c14X) judge(s *c14Scn, out *c14Out, full bool) {
 	g, em := s.g, out.emitted
 	ctxt := func() string {
-		return fmt.Sprintf("requested=%s emitted=%s stop=%q j=%d plan=%d", c14IDs(s.req), c14IDs(em), s.stop, s.j, s.plan)
+		return fmt.Sprintf("requested=%s emitted=%s stop=%q j=%d plan=%d datasource=%s %s", c14IDs(s.req), c14IDs(em), s.stop, s.j, s.plan, c14LibModes[s.lib], s.note)
 	}
 	pos := make(map[osm.RelationID]int, len(em))
 	for i, id := range em {
@@ -1567,6 +1824,60 @@ func c14Exec(c fw.Case) *fw.Result {
 			}
 			x.checkLibInputs(g)
 		}
+	case "multi-exh":
+		// pairs / triples of enumerated graphs on the same ids 1..n: the first is stalled inside
+		// each of its lookups in turn while an unrelated graph on the same ids runs to its end
+		n := int(c.Int("n"))
+		total := c14ExhCount(n)
+		for gi := from; gi < from+count && gi < total; gi++ {
+			a := c14ExhGraph(n, gi, 0)
+			if a.nHist < 2 {
+				continue
+			}
+			probe := x.run(&c14Scn{g: a, req: a.allIDs(), plan: 0})
+			for k := 2; k <= int(probe.dsCalls); k++ {
+				for t := 0; t < 2; t++ {
+					h := (uint64(gi)*2654435761 + uint64(k)*40503 + uint64(t)*977) % uint64(total)
+					b := c14ExhGraph(n, int64(h), int(h%3))
+					ms := []*c14Member{{g: a, req: a.allIDs(), stallAt: k}, {g: b, req: b.allIDs()}}
+					if t == 1 {
+						h2 := (h*31 + 7) % uint64(total)
+						c2 := c14ExhGraph(n, int64(h2), 0)
+						rev := c2.allIDs()
+						for i, j := 0, len(rev)-1; i < j; i, j = i+1, j-1 {
+							rev[i], rev[j] = rev[j], rev[i]
+						}
+						ms = []*c14Member{ms[0], {g: c2, req: rev, stallAt: 2}, ms[1]}
+					}
+					x.multi(ms, "nest")
+				}
+			}
+			res.Add("graphs_stalled_under_concurrent_orderings", 1)
+		}
+	case "multi-rand":
+		maxN := int(c.Int("maxn"))
+		for k := from; k < from+count; k++ {
+			r := gen.New(gen.Sub(c.Seed, "c14multi", int(k)), "c14m")
+			m := r.Range(2, 4)
+			var ms []*c14Member
+			for i := 0; i < m; i++ {
+				g := c14RandGraphStyle(r, maxN, 0) // ids 1..40: the graphs share ids by coincidence
+				ids := g.allIDs()
+				r.Shuffle(len(ids), func(a, b int) { ids[a], ids[b] = ids[b], ids[a] })
+				ms = append(ms, &c14Member{g: g, req: ids, stallAt: r.Range(1, 2*len(ids))})
+			}
+			fresh := func() []*c14Member {
+				var out []*c14Member
+				for _, m := range ms {
+					out = append(out, &c14Member{g: m.g, req: m.req, stallAt: m.stallAt})
+				}
+				return out
+			}
+			x.multi(fresh(), "nest")
+			x.multi(fresh(), "robin")
+			x.multi(fresh(), "free")
+			res.Add("groups_of_concurrent_orderings", 1)
+		}
 	case "deep":
 		for v := from; v < from+count; v++ {
 			g := c14DeepGraph(int(v))
@@ -1707,6 +2018,29 @@ func c14Cases(tier string, seed uint64) []fw.Case {
 				P: map[string]int64{"from": int64(from), "count": int64(batch), "procs": []int64{0, 2, 1, 4}[(from/batch)%4]}})
 		}
 	}
+	multi := func(kind string, n int, total, batch int64, variant, label string) {
+		for from, b := int64(0), 0; from < total; from, b = from+batch, b+1 {
+			sd := uint64(0)
+			if kind == "multi-rand" {
+				sd = gen.Sub(seed, label, b)
+				cs = append(cs, fw.Case{Kind: kind, Variant: variant, Seed: sd,
+					P: map[string]int64{"from": 0, "count": batch, "maxn": 10, "procs": []int64{1, 0, 2, 4}[b%4]}})
+				continue
+			}
+			cs = append(cs, fw.Case{Kind: kind, Variant: variant, Seed: sd,
+				P: map[string]int64{"n": int64(n), "from": from, "count": batch, "procs": []int64{1, 1, 2, 0}[b%4]}})
+		}
+	}
+	multi("multi-exh", 2, c14ExhCount(2), 25, "", "")
+	multi("multi-exh", 3, c14ExhCount(3), 92, "", "")
+	if tier == "thorough" {
+		multi("multi-exh", 4, c14ExhCount(4), 512, "", "")
+		multi("multi-rand", 0, 3000, 50, "", "c14multi")
+		multi("multi-exh", 3, c14ExhCount(3), 92, "race", "")
+		multi("multi-rand", 0, 1000, 50, "race", "c14multirace")
+	} else {
+		multi("multi-rand", 0, 150, 25, "", "c14multi")
+	}
 	deep(11*8*4, 22, "") // 11 depths x 8 closings x plain/wide ids x plain/annotated members
 	all := []int{0, 1, 2, 3}
 	exh(1, 8, "", all)
@@ -1738,6 +2072,8 @@ func init() {
 			"Deep family (seed-independent): 352 chains of depth 99..300 (straddling the library's preallocated path capacity of 100), acyclic or closed at the bottom by a reference back to depth 0, 1, d-1, d-2, d/2, d-100 or by a 3-ring, plain / 2^40-straddling ids, plain / annotated members, with stops deep inside the recursion. " +
 			"Relation members carry annotation fields (Version, ChangesetID, Orientation, Lat/Lon, Role) in enumerated layout 1 and in 40% of the random graphs. " +
 			"Datasource dimension: besides the harness' own datasource, library-built osm.HistoryDatasources from an OSM value (versions grouped / interleaved) and from a Change value (versions spread over create/modify/delete, grouped / interleaved) for the multi-version enumerated layout, the random graphs and their stop sweeps; findings there carry the class suffix -libds; the input value must be unchanged afterwards. " +
+			"Relation versions carry tags (type=multipolygon / boundary / route / site / empty / none, other tags) in layouts 1 and 2, 60% of the random graphs and the annotated deep chains. " +
+			"Concurrent orderings: enumerated graphs stalled inside each of their lookups while other enumerated graphs on the same ids run to completion, and groups of 2-4 random graphs with ids 1..40, interleaved deterministically through gated datasources (nest / round-robin) or free-running; each judged against its own graph, classes suffixed -concurrent. " +
 			"Schedule perturbation (Gosched / spinning / 30us sleeps in the datasource or the consumer, GOMAXPROCS 1,2,4,default) never feeds a verdict. " +
 			"One evaluation = one iteration (scenario). A signature is (stop kind, acyclic-with-pairs | flat | cyclic as seen from the requests, size classes of scope / request list / emitted sequence, repeated or history-less ids requested, enumerated or random graph); " +
 			"it is listed once per case, so the histogram counts cases, not scenarios; iterations whose requests name no relation with a history are trivial.",
